@@ -58,6 +58,18 @@ def install(*modules):
     from crosshair.libimpl import builtinslib as B
 
     def hex_(self, *a):
+        # a byte string whose elements are all concrete (e.g. a slice of a partly symbolic buffer that only covers concrete
+        # bytes) gets its real hex text: it may be used as a dict key (cmd_image._find_role)
+        from crosshair.tracers import NoTracing
+
+        with NoTracing():
+            try:
+                elems = list(self.inner)
+                concrete = all(type(x) is int for x in elems)
+            except Exception:
+                concrete = False
+            if concrete:
+                return bytes(elems).hex(*a)
         return HexStr(self)
 
     B.BytesLike.hex = hex_
